@@ -132,15 +132,35 @@ def vanillaMultiEffects (g : Game α) (c : VCtx α) (target : Nat) (log : List (
   let (_, e2, d) := vrecC c cache g.root [] 1 1 1 d
   (e1 ++ e2, d)
 
-def vanillaMultiIter (g : Game α) (sampled : Bool) (p : RegretParams α) (draw : DrawFn α)
-    (target : Nat) (it : Nat) (s : SolveSt α) (log : List (DrawRec α)) :
+/-- A *schedule*: the order in which the atomic accumulations of one iteration (pass) reach
+memory.  The workers of the crate perform exactly the accumulations of the tasks and of the cached
+traversal (`fetch_add` per float, a mutex around each `cum_strat` update), interleaved in a way
+the thread scheduler chooses: any rearrangement of the list, possibly a different one in every
+iteration. -/
+abbrev Sched (α : Type) := Nat → List (Eff α) → List (Eff α)
+
+/-- the schedule that runs the tasks one after the other and the cached traversal last -/
+def Sched.seq : Sched α := fun _ es => es
+
+/-- one multi-threaded iteration under a schedule -/
+def vanillaMultiIterS (sched : Sched α) (g : Game α) (sampled : Bool) (p : RegretParams α)
+    (draw : DrawFn α) (target : Nat) (it : Nat) (s : SolveSt α) (log : List (DrawRec α)) :
     SolveSt α × α × α × List (DrawRec α) :=
   let c : VCtx α := ⟨g.chance, sampled, s.strat, draw, it - 1⟩
   let (es, d) := vanillaMultiEffects g c target log
-  let s := s.applyEffs es
+  let s := s.applyEffs (sched it es)
   let (one, r1) := advanceAll p it it s.one 0
   let (two, r2) := advanceAll p it it s.two 0
   (⟨one, two⟩, r1, r2, d.log)
+
+def vanillaMultiIter (g : Game α) (sampled : Bool) (p : RegretParams α) (draw : DrawFn α)
+    (target : Nat) : IterFn α :=
+  vanillaMultiIterS Sched.seq g sampled p draw target
+
+/-- `solve_full_multi` / `solve_sampled_multi` with an explicit task target, under a schedule -/
+def solveVanillaMultiS (sched : Sched α) (g : Game α) (sampled : Bool) (p : RegretParams α)
+    (draw : DrawFn α) (maxIter : Nat) (thr : Option (Ext α)) (target : Nat) : SolveOut α :=
+  solveWith g (vanillaMultiIterS sched g sampled p draw target) maxIter thr
 
 /-- `solve_full_multi` / `solve_sampled_multi` with an explicit task target -/
 def solveVanillaMulti (g : Game α) (sampled : Bool) (p : RegretParams α) (draw : DrawFn α)
@@ -242,23 +262,38 @@ def externalMultiEffects (g : Game α) (c : ECtx α) (target : Nat) (log : List 
   let (_, e2, d) := erecC c cache g.root [] d
   (e1 ++ e2, d)
 
-/-- `single_player_iter::<FIRST>` -/
-def externalMultiPass (g : Game α) (first : Bool) (p : RegretParams α) (draw : DrawFn α)
-    (target : Nat) (it : Nat) (s : SolveSt α) (log : List (DrawRec α)) :
+/-- `single_player_iter::<FIRST>` under a schedule (schedule index: the number of the pass) -/
+def externalMultiPassS (sched : Sched α) (g : Game α) (first : Bool) (p : RegretParams α)
+    (draw : DrawFn α) (target : Nat) (it : Nat) (s : SolveSt α) (log : List (DrawRec α)) :
     SolveSt α × α × List (DrawRec α) :=
   let c : ECtx α :=
     ⟨g.chance, first, s.strat, draw, 2 * (it - 1) + (if first then 0 else 1), if first then it - 1 else it⟩
   let (es, d) := externalMultiEffects g c target log
-  let s := s.applyEffs es
+  let s := s.applyEffs (sched (2 * (it - 1) + (if first then 0 else 1)) es)
   let (xs, r) := advanceAll p it (if first then it - 1 else it) (s.get first) 0
   (s.set first xs, r, d.log)
 
-def externalMultiIter (g : Game α) (p : RegretParams α) (draw : DrawFn α) (target : Nat) : IterFn α :=
+def externalMultiIterS (sched : Sched α) (g : Game α) (p : RegretParams α) (draw : DrawFn α)
+    (target : Nat) : IterFn α :=
   fun it s log =>
-  match externalMultiPass g true p draw target it s log with
+  match externalMultiPassS sched g true p draw target it s log with
   | (s, r1, log) =>
-    match externalMultiPass g false p draw target it s log with
+    match externalMultiPassS sched g false p draw target it s log with
     | (s, r2, log) => (s, r1, r2, log)
+
+/-- `single_player_iter::<FIRST>` -/
+def externalMultiPass (g : Game α) (first : Bool) (p : RegretParams α) (draw : DrawFn α)
+    (target : Nat) (it : Nat) (s : SolveSt α) (log : List (DrawRec α)) :
+    SolveSt α × α × List (DrawRec α) :=
+  externalMultiPassS Sched.seq g first p draw target it s log
+
+def externalMultiIter (g : Game α) (p : RegretParams α) (draw : DrawFn α) (target : Nat) : IterFn α :=
+  externalMultiIterS Sched.seq g p draw target
+
+/-- `solve_external_multi` with an explicit task target, under a schedule -/
+def solveExternalMultiS (sched : Sched α) (g : Game α) (p : RegretParams α) (draw : DrawFn α)
+    (maxIter : Nat) (thr : Option (Ext α)) (target : Nat) : SolveOut α :=
+  solveWith g (externalMultiIterS sched g p draw target) maxIter thr
 
 /-- `solve_external_multi` with an explicit task target -/
 def solveExternalMulti (g : Game α) (p : RegretParams α) (draw : DrawFn α)
